@@ -28,6 +28,7 @@ import (
 	"runtime/debug"
 	"slices"
 	"sort"
+	"strings"
 	"sync"
 
 	"encoding/json"
@@ -91,19 +92,30 @@ func main() {
 		fmt.Fprintln(os.Stderr, err) // the trusted reference is broken: no verdict
 		os.Exit(2)
 	}
-	switch mode := in.CfgStr("mode", ""); mode {
-	case "ranges":
-		modeRanges(in)
-	case "assign":
-		modeAssign(in)
-	case "hash":
-		modeHash(in)
-	case "sites":
-		modeSites(in)
-	default:
-		fmt.Fprintln(os.Stderr, "unknown mode "+mode)
-		os.Exit(2)
-	}
+	func() {
+		// a panic raised inside the code under test (first frame below the runtime in reduction.dev/reduction) is an
+		// observation of the real code for the configuration being probed; one raised by the harness is a machinery error
+		defer func() {
+			p := recover()
+			if p == nil {
+				return
+			}
+			first := ""
+			for _, ln := range strings.Split(string(debug.Stack()), "\n") {
+				if strings.HasPrefix(ln, "\t") || strings.HasPrefix(ln, "goroutine ") || strings.HasPrefix(ln, "runtime") || strings.HasPrefix(ln, "panic(") ||
+					strings.HasPrefix(ln, "main.main.func") || strings.Contains(ln, "debug.Stack") || ln == "" {
+					continue
+				}
+				first = ln
+				break
+			}
+			if !strings.HasPrefix(first, "reduction.dev/reduction/") {
+				panic(p)
+			}
+			violate(map[string]any{"mode": in.CfgStr("mode", "")}, fmt.Sprintf("the code under test panicked in %s: %v (last configuration probed: %s)", first, p, lastProbe), nil, fmt.Sprint(p))
+		}()
+		dispatch(in)
+	}()
 	sort.SliceStable(res.Violations, func(i, j int) bool { // smallest witness first
 		a, b := res.Violations[i].What, res.Violations[j].What
 		if len(a) != len(b) {
@@ -117,6 +129,24 @@ func main() {
 	b, _ := json.Marshal(res)
 	if err := os.WriteFile(os.Args[2], b, 0o644); err != nil {
 		fmt.Fprintln(os.Stderr, err)
+		os.Exit(2)
+	}
+}
+
+var lastProbe string // set by the modes before they call into the code under test
+
+func dispatch(in *mbt.Input) {
+	switch mode := in.CfgStr("mode", ""); mode {
+	case "ranges":
+		modeRanges(in)
+	case "assign":
+		modeAssign(in)
+	case "hash":
+		modeHash(in)
+	case "sites":
+		modeSites(in)
+	default:
+		fmt.Fprintln(os.Stderr, "unknown mode "+mode)
 		os.Exit(2)
 	}
 }
@@ -135,8 +165,8 @@ func ivs(p [][2]int) []iv {
 	return out
 }
 
-func includes(r iv, g int) bool { return r.Start <= g && g < r.End }                     // Includes
-func sharesGroup(a, b iv) bool  { return max(a.Start, b.Start) < min(a.End, b.End) }         // SharesGroup
+func includes(r iv, g int) bool { return r.Start <= g && g < r.End }                 // Includes
+func sharesGroup(a, b iv) bool  { return max(a.Start, b.Start) < min(a.End, b.End) } // SharesGroup
 func startCF(c, n, i int) int   { return i*(c/n) + min(i, c%n) }                     // StartCF
 func wellFormed(R []iv) bool { // WellFormed
 	for _, r := range R {
@@ -336,8 +366,63 @@ func checkOne(c, n int, tlc []iv, buf []uint8, keys []poolKey, fast bool) {
 	} else if !closedForm(R, c) || !contiguous(R) {
 		drift("NewKeySpace(%d,%d) ranges %v are not the closed form i*q+min(i,r) (property still holds)", c, n, clip(R))
 	}
+	// "identical in every process": the first lookups on a fresh key space come from several goroutines at once in the
+	// source runner (fetch goroutines); every one of them must get the owner, also while another is still warming up
+	// whatever the key space builds on first use. Every 64th configuration and all large ones.
+	if concurrentEvery++; concurrentEvery%64 == 0 || c >= 4096 {
+		if ks2, R2, p2 := safeKeySpace(c, n); p2 == nil {
+			if !probeConcurrently(cfg, ks2, R2, c, n, keys) {
+				return
+			}
+			count("configs_probed_concurrently_on_first_use", 1)
+		}
+	}
 	probe(cfg, ks, R, c, n, keys)
 	count("configs_checked", 1)
+}
+
+var concurrentEvery int
+
+func probeConcurrently(cfg map[string]any, ks *partitioning.KeySpace, R []iv, c, n int, keys []poolKey) bool {
+	const G = 8
+	var wg sync.WaitGroup
+	var mu sync.Mutex
+	bad := ""
+	start := make(chan struct{})
+	for g := 0; g < G; g++ {
+		wg.Add(1)
+		go func(g int) {
+			defer wg.Done()
+			defer func() {
+				if r := recover(); r != nil {
+					mu.Lock()
+					bad = fmt.Sprintf("NewKeySpace(%d,%d): RangeIndex panicked when first used from %d goroutines at once: %v", c, n, G, r)
+					mu.Unlock()
+				}
+			}()
+			<-start
+			for i := g; i < len(keys); i += G {
+				pk := keys[i]
+				kg := int(pk.h % uint32(c))
+				if idx := ks.RangeIndex(pk.key); idx < 0 || idx >= len(R) || !includes(R[idx], kg) {
+					mu.Lock()
+					if bad == "" {
+						bad = fmt.Sprintf("NewKeySpace(%d,%d).RangeIndex(%q) = %d when the fresh key space is first used from %d goroutines at once, but the key's group %d is not in that operator's range (ranges %v)",
+							c, n, pk.key, idx, G, kg, clip(R))
+					}
+					mu.Unlock()
+					return
+				}
+			}
+		}(g)
+	}
+	close(start)
+	wg.Wait()
+	if bad != "" {
+		violate(cfg, bad, nil, nil)
+		return false
+	}
+	return true
 }
 
 func modeRanges(in *mbt.Input) {
